@@ -17,17 +17,54 @@ import (
 func init() { commands["framer"] = framer }
 
 type evReset struct {
-	Ev     string `json:"ev"`
-	In     []int  `json:"in"`
-	Cls    string `json:"cls"`
-	InCap  int    `json:"in_cap"`
-	OutCap int    `json:"out_cap"`
+	Ev     string   `json:"ev"`
+	In     []int    `json:"in"`
+	Cls    string   `json:"cls"`
+	InCap  int      `json:"in_cap"`
+	OutCap int      `json:"out_cap"`
+	RefAux []string `json:"ref_aux"` // C12: what the handler derived for each segment of the uncorrupted stream
+	VStart int      `json:"vstart"`  // C12: byte range of the victim frame
+	VEnd   int      `json:"vend"`
 }
 type evMsg struct {
 	Ev   string `json:"ev"`
 	Type int    `json:"type"`
 	Raw  []int  `json:"raw"`
+	Aux  string `json:"aux"` // everything else the handler attached to the message (timestamp, times, error text)
 }
+
+func auxOf(m *handler.Message) string {
+	return fmt.Sprintf("%d|%s|%s|%s", m.Timestamp, m.SentAt, m.StartOfWeek, m.ErrorMessage)
+}
+
+// refAux runs the uncorrupted stream through a fresh handler and returns the aux value of every message.
+func refAux(in []byte) []string {
+	chIn := make(chan byte, len(in)+1)
+	for _, b := range in {
+		chIn <- b
+	}
+	close(chIn)
+	chOut := make(chan handler.Message, 8)
+	h := handler.New(framerStart, slog.LevelDebug)
+	go func() { tr.Recover(func() { h.HandleMessages(chIn, chOut) }) }()
+	r := []string{}
+	deadline := time.After(20 * time.Second)
+	for {
+		select {
+		case m, ok := <-chOut:
+			if !ok {
+				return r
+			}
+			mm := m
+			r = append(r, auxOf(&mm))
+		case <-deadline:
+			return r
+		}
+	}
+}
+
+var pendingRef []string
+var pendingV [2]int
 type evClose struct {
 	Ev string `json:"ev"`
 }
@@ -53,7 +90,12 @@ var framerStart = time.Date(2023, 5, 10, 12, 0, 0, 0, time.UTC)
 // runStream feeds in to a fresh handler and records the delivered messages.
 // pace: 0 none, 1 producer yields, 2 consumer yields, 3 both + tiny sleeps.
 func runStream(w *tr.Writer, in []byte, cls string, inCap, outCap, pace int, rng *rand.Rand) {
-	w.Emit(evReset{"reset", tr.Ints(in), cls, inCap, outCap})
+	ra := pendingRef
+	if ra == nil {
+		ra = []string{}
+	}
+	w.Emit(evReset{"reset", tr.Ints(in), cls, inCap, outCap, ra, pendingV[0], pendingV[1]})
+	pendingRef, pendingV = nil, [2]int{0, 0}
 	chIn := make(chan byte, inCap)
 	chOut := make(chan handler.Message, outCap)
 	h := handler.New(framerStart, slog.LevelDebug)
@@ -81,7 +123,8 @@ loop:
 				end.Closes++
 				break loop
 			}
-			w.Emit(evMsg{"msg", m.MessageType, tr.Ints(m.RawData)})
+			mm := m
+			w.Emit(evMsg{"msg", m.MessageType, tr.Ints(m.RawData), auxOf(&mm)})
 			if pace&2 != 0 {
 				runtime.Gosched()
 				if pace == 3 && rng.Intn(4) == 0 {
@@ -99,7 +142,8 @@ loop:
 						end.Closes++
 						break loop
 					}
-					w.Emit(evMsg{"msg", m.MessageType, tr.Ints(m.RawData)})
+					mm := m
+			w.Emit(evMsg{"msg", m.MessageType, tr.Ints(m.RawData), auxOf(&mm)})
 					continue
 				default:
 				}
@@ -206,6 +250,7 @@ func framer(args []string) {
 			v := frames[rng.Intn(len(frames))]
 			c, what := gen.Corrupt(rng, s[v[0]:v[1]], k)
 			t := append(append(append([]byte{}, s[:v[0]]...), c...), s[v[1]:]...)
+			pendingRef, pendingV = refAux(s), [2]int{v[0], v[1]}
 			run(t, cls+" victim@"+fmt.Sprint(v[0])+" "+what)
 		}
 		// every payload length (thorough) / boundaries + sample (quick), every type class
@@ -293,6 +338,29 @@ func framer(args []string) {
 			run(s, "random ws")
 		}
 		if corrupt {
+			// MSM frames of one constellation around a victim whose timestamp field (frame bytes 6-9) or type bits are damaged:
+			// the neighbours must come out exactly as without the damage, including what the handler derives for them
+			for i := 0; i < 6*scale; i++ {
+				con := []int{1077, 1087, 1097, 1127, 1074, 1124}[i%6]
+				mk := func(ts uint) []byte { return msmFrame(rng, con, ts) }
+				base := uint(100000000 + rng.Intn(300000000))
+				if con == 1087 {
+					base = uint(2<<27 | rng.Intn(80000000))
+				}
+				a, v, b, c2 := mk(base), mk(base+1000), mk(base+2000), mk(base+3000)
+				cv := append([]byte{}, v...)
+				switch i % 3 {
+				case 0:
+					cv[6] ^= 0x20 // a high bit of the timestamp
+				case 1:
+					cv[7] ^= 0xff
+				default:
+					cv[6], cv[7], cv[8] = 0, 0, 1 // claims the start of the week
+				}
+				s := gen.Cat(a, v, b, c2)
+				pendingRef, pendingV = refAux(s), [2]int{len(a), len(a) + len(v)}
+				run(gen.Cat(a, cv, b, c2), "msm-timestamp-damage")
+			}
 			// every single bit of a short frame's payload+CRC (thorough: several frames)
 			for i := 0; i < 1*scale; i++ {
 				f := gen.Frame(rng, gen.TypeClass(rng, i+2), 1+rng.Intn(6), 0)
@@ -301,6 +369,7 @@ func framer(args []string) {
 				for bit := 24; bit < len(f)*8; bit++ {
 					c := append([]byte{}, f...)
 					c[bit/8] ^= 1 << uint(7-bit%8)
+					pendingRef, pendingV = refAux(gen.Cat(pre, f, post)), [2]int{len(pre), len(pre) + len(f)}
 					run(gen.Cat(pre, c, post), fmt.Sprintf("everybit %d", bit))
 				}
 			}
